@@ -32,6 +32,9 @@ def ident_post(self, expr, args, kwargs, result):
 IDENTITY = MapperContract(
     "C04.IdentityMapper", "pymbolic.mapper:IdentityMapper", rec=ident_rec,
     ensures=[("identity", ident_post)], property_id="C04")
+# is_zero(None) raises ValueError when a child's handler returned None (IdentityMapper.map_common_subexpression): the
+# reaction to a handler that maps to no expression at all; named here so that it is not an unexpected error
+IDENTITY.allowed_exc = (NotImplementedError, ValueError)
 
 
 def ident_leaf_post(self, expr, args, kwargs, result):
